@@ -137,6 +137,10 @@ def BTreeExtension(family):
         kwargs["depends"] = base_btrees_depends
     if key != "O":
         kwargs["define_macros"] = [('EXCLUDE_INTSET_SUPPORT', None)]
+    if os.environ.get("BTREES_VERIF") == "1":
+        # Verification hook: allocation-failure injection (see
+        # BTreeModuleTemplate.c); off unless explicitly requested.
+        kwargs.setdefault("define_macros", []).append(('BTREES_VERIF', '1'))
     return Extension(name, sources, **kwargs)
 
 
